@@ -386,7 +386,7 @@ unrestricted `Sys`-level statement of the last sentence.  The exchange between t
 aggregates is `Ca/Exchange.lean`; on it `exchange_idempotent` (below) is proved for every pair,
 and convergence is proved for concrete pairs covering each kind of entitlement change
 (`exchange_converges_instances`).  For an ARBITRARY reachable pair the statement is FALSE as it
-stands: `sync_stuck_with_request_for_lost_class` (H, replayed on the real code: open, proposed id F-C02-4),
+stands: `sync_stuck_with_request_for_lost_class` (H, replayed on the real code: F-C02-4, open),
 `sync_misses_parent_side_reissue` (G) and `names_clash_when_class_is_added_after_mapping` (below)
 are reachable pairs on which `Pair.sync` never converges / whose names clash.  Two more were
 defects of the code, replayed and repaired (the models follow the fixed code, the old behaviour
@@ -967,7 +967,7 @@ error, never with an RFC 6492 1201 response, so the child's "class is gone: drop
 not reached: the request stays open, every sync sends it again, the entitlements are never
 fetched.  A fixed point that is not converged – even when the parent later holds the resources
 again under a new class name.  What `pendingAnswerable` excludes.  Replayed on the real code:
-corpus/system-findings/c02-h-request-for-lost-class.ops (open, proposed id F-C02-4). -/
+corpus/system-findings/c02-h-request-for-lost-class.ops (F-C02-4, open). -/
 theorem sync_stuck_with_request_for_lost_class :
     Reachable xLost.parent ∧ Reachable xLost.child ∧ xLost.pendingAnswerable = false ∧
     xLost.coupled = true ∧ xLost.noRollInProgress = true ∧ xLost.coupledRoll = true ∧
